@@ -2,6 +2,7 @@ package rules
 
 import (
 	"go/ast"
+	"go/token"
 	"go/types"
 	"strings"
 
@@ -26,6 +27,8 @@ func init() {
 			"errors of the cache store flow only into the error reporter and the store is never called with the data lock held; both cache keys combine the entity hash with the selection hash taken before the input buffer is rewritten; " +
 			"every Cache-Control field the decision reads is filled by the arm of the directive switch for the RFC 9111 directive of that name. It does not decide transparency over request histories nor the Cache-Control lexer over all strings.",
 		Mutants: []Mutant{
+			{Name: "non-positive default TTL replaced by one minute (seeded change C16-13)", File: "v2/pkg/engine/resolve/context.go", Rule: "C16-R1", Key: "SetResponseCache/default-ttl-is-the-configured-value",
+				Old: "\tc.responseCache = &responseCache{store: cache, defaultTTL: defaultTTL, onError: onError}", New: "\tif defaultTTL <= 0 {\n\t\tdefaultTTL = time.Minute\n\t}\n\tc.responseCache = &responseCache{store: cache, defaultTTL: defaultTTL, onError: onError}"},
 			{Name: "private no longer refuses storing", File: ttlGo, Rule: "C16-R1", Key: "private",
 				Old: "if cc.NoCache != nil || cc.Private != nil {", New: "if cc.NoCache != nil {"},
 			{Name: "public no longer required", File: ttlGo, Rule: "C16-R1", Key: "public",
@@ -57,6 +60,7 @@ func init() {
 
 func runC16(r *fw.Run) {
 	p := r.Prog
+	defer c16DefaultTTLUnchanged(r)
 	// ---- R1 storability decision --------------------------------------------------------------
 	r.Rule("C16-R1", "caching.TTL returns ok only when the header parsed ∧ !no-store ∧ no-cache absent ∧ private absent ∧ public, and the duration is s-maxage, else max-age, else the default, each tested > 0")
 	if fi := p.Func("caching", "TTL"); fi == nil {
@@ -777,4 +781,58 @@ func errOnlyReported(fi *fw.FuncInfo, call *ast.CallExpr) (bool, string) {
 		return true
 	})
 	return ok, why
+}
+
+// c16DefaultTTLUnchanged (part of R1, added after a seeded change replaced a non-positive default by one minute): the
+// default lifetime that caching.TTL tests (> 0, else the response is not stored) is the value the caller configured:
+// every store into responseCache.defaultTTL takes a parameter that is never reassigned in that function.
+func c16DefaultTTLUnchanged(r *fw.Run) {
+	p := r.Prog
+	info := p.Pkg("resolve").TypesInfo
+	n := 0
+	for _, fi := range p.Funcs("resolve") {
+		sig := fi.Obj.Type().(*types.Signature)
+		params := map[types.Object]bool{}
+		for i := 0; i < sig.Params().Len(); i++ {
+			params[sig.Params().At(i)] = true
+		}
+		reassigned := map[types.Object]bool{}
+		fw.WalkAll(fi.Decl.Body, func(nd ast.Node) bool {
+			for _, t := range fw.WriteTargets(info, nd) {
+				if id, ok := ast.Unparen(t).(*ast.Ident); ok && params[info.Uses[id]] {
+					reassigned[info.Uses[id]] = true
+				}
+			}
+			return true
+		})
+		check := func(val ast.Expr, pos token.Pos) {
+			n++
+			id, isID := ast.Unparen(val).(*ast.Ident)
+			ok := isID && params[info.Uses[id]] && !reassigned[info.Uses[id]]
+			r.Check(ok, "C16-R1", fi.Name()+"/default-ttl-is-the-configured-value", p.Pos(pos), "responseCache.defaultTTL is the caller's value, unchanged",
+				"the default lifetime handed to caching.TTL is not the configured one (replaced or clamped on the way in): a configured default of zero — 'store nothing that carries no lifetime of its own' — no longer makes caching.TTL refuse, and responses without max-age are stored for the substituted time")
+		}
+		fw.WalkAll(fi.Decl.Body, func(nd ast.Node) bool {
+			switch x := nd.(type) {
+			case *ast.CompositeLit:
+				if fw.TypeIs(info.TypeOf(x), "resolve", "responseCache") {
+					for _, el := range x.Elts {
+						if kv, ok := el.(*ast.KeyValueExpr); ok {
+							if k, ok := kv.Key.(*ast.Ident); ok && k.Name == "defaultTTL" {
+								check(kv.Value, kv.Pos())
+							}
+						}
+					}
+				}
+			case *ast.AssignStmt:
+				for i, l := range x.Lhs {
+					if fw.IsFieldSel(info, l, "resolve", "responseCache", "defaultTTL") && i < len(x.Rhs) {
+						check(x.Rhs[i], x.Pos())
+					}
+				}
+			}
+			return true
+		})
+	}
+	r.Expect("C16-R1", "stores into responseCache.defaultTTL", n, 1)
 }
